@@ -244,6 +244,10 @@ class GuardAnalysis:
                         ok = False
             return ok, "closure %s %s" % (strip_generics(cb.id), "only passes the guard to safe functions" if ok else "uses the captured guard without a check")
         if u["kind"] == "carrier":
+            # copying a carrier (Clone, a rebuilt iterator): the guard comes out of a field of the same carrier type, where it was put by
+            # a construction that is judged itself -- by induction over the constructions, nothing unchecked enters this way
+            if src[0] == "field" and (src[1], src[2]) == (u["adt"], u["field"]):
+                return True, "copy of a %s: its guard was judged where the original was built" % u["adt"]
             # a struct built around an unchecked guard is fine iff every reader of that field is safe (G2)
             bad = self.unsafe_readers(u["adt"], u["field"])
             self.unchecked_carriers.setdefault((u["adt"], u["field"]), []).append((b, u))
